@@ -18,7 +18,7 @@ pub(crate) fn send_input(t: &SendTrack, i: usize) -> Frame { t.input[i] }
 // @req two tracks feed the send (dyadic symbolic frames)
 // @ens input accumulates in_a*amp(route_a) + in_b*amp(route_b); process outputs effect(input)*amp(volume) for the frames asked and then the input buffer is ALL zero (nothing carries over to the next chunk, even frames beyond a short chunk)
 #[kani::proof]
-#[kani::unwind(6)]
+#[kani::unwind(4)]
 #[kani::stub(f32::powf, powf32_model)]
 fn c02_2a_send_accumulates_then_clears() {
     let (ra, amp_a) = if kani::any() { (Decibels(0.0), 1.0f32) } else { (Decibels(-60.0), 0.0) };
